@@ -35,6 +35,7 @@ func TestVerif(t *testing.T) {
 		verifC04Paths(t, r, out)
 	case "C05":
 		verifC05(t, r, out)
+		verifC05Live(t, r, out)
 	case "C06":
 		verifSched(t, r, out, "sch6")
 		verifAdv(t, r, out, "adv6")
